@@ -247,3 +247,11 @@ RULES = [
     ("C19.c", "leak inventory and release of ManuallyDrop fields; dealloc rules", rule_c),
     ("C19.d", "no custom Drop on Simulation; ordering floors of the decrements", rule_d),
 ]
+
+
+def rule_inventory(ctx):
+    from . import inventory
+    inventory.check(ctx, ['file:st_executor', 'file:mt_executor'])
+
+
+RULES.append(("C19.e", "state-mutation inventory: no new site that changes the content of the state this property rests on", rule_inventory))
